@@ -31,6 +31,8 @@ PG_CFGS = {
     # design of the async block builder (spec/AsyncBlocks.tla); the FINDING cfgs document C34's known finding
     "AsyncBlocks_ordered": None, "AsyncBlocks_unordered_chain": None,
     "AsyncBlocks_FINDING_unordered": "DigestCovers", "AsyncBlocks_FINDING_quiescence": "CoverAtQuiescence",
+    # import vs first writes (spec/ImportLock.tla); the NEG cfgs are the two ways the exclusion can be lost
+    "ImportLock_ok": None, "ImportLock_ok_tail": None, "ImportLock_NEG_keys": "Serial", "ImportLock_NEG_noflip": "Serial",
 }
 PG_BY_PROP = {
     "C06": ["c06_two", "c06_three", "c06_cross", "c06_NEG_nolock"],
@@ -39,7 +41,7 @@ PG_BY_PROP = {
     "C15": ["c06_two"],
     "C16": ["c16_shared", "c16_disjoint_sync", "c16_FINDING_txid", "c16_FINDING_logid"],
     "C09": ["c16_shared", "c16_disjoint_sync", "c09_NEG_noadv"],
-    "C12": [],
+    "C12": ["ImportLock_ok", "ImportLock_ok_tail", "ImportLock_NEG_keys", "ImportLock_NEG_noflip"],
     "C34": ["AsyncBlocks_ordered", "AsyncBlocks_unordered_chain", "AsyncBlocks_FINDING_unordered", "AsyncBlocks_FINDING_quiescence"],
 }
 # predicates whose known-finding signature carries the scenario family
@@ -49,6 +51,8 @@ FAMILY_SIG = ("StepC_C16_TxIdCommitOrder", "StepC_C16_LogIdCommitOrder", "Inv_C3
 def _tlc_design(n):
     if n.startswith("AsyncBlocks_"):
         return vlib.tlc("AsyncBlocks", n + ".cfg", workers=2, timeout=900)
+    if n.startswith("ImportLock_"):
+        return vlib.tlc("ImportLock", n + ".cfg", workers=2, timeout=600)
     return vlib.tlc("MC_LedgerPG", "MC_LedgerPG_%s.cfg" % n, workers=2, timeout=600)
 
 TIERS = {
